@@ -74,6 +74,48 @@ def default_binding(syms: Sequence[str]) -> Dict[str, int]:
     return {s: v for s, v in zip(syms, [2, 3, 4, 5, 6, 7])}
 
 
+# Documented preconditions of library functions: inputs violating them are outside the callable's domain
+# (undefined result in JAX itself), so the generator repairs the pattern instead of feeding garbage.
+DOMAIN_RULES = [
+    ("/searchsorted/", {0: "sorted"}),
+    ("/digitize/", {1: "sorted"}),
+    ("/interp/", {1: "strictly_increasing"}),
+    ("/histogram/", {1: "sorted"}),
+    ("/histogramdd/", {1: "sorted"}),
+    ("/histogram2d/", {2: "sorted"}),
+    ("/histogram_bin_edges/", {1: "sorted"}),
+    ("/select_n/", {0: "case_index"}),
+    ("/unique", {}),
+]
+
+
+def apply_domain_rules(pid: str, arrays: List[np.ndarray], tp) -> List[np.ndarray]:
+    for frag, rules in DOMAIN_RULES:
+        if frag not in pid:
+            continue
+        for idx, rule in rules.items():
+            if idx >= len(arrays):
+                continue
+            a = arrays[idx]
+            if rule in ("sorted", "strictly_increasing") and a.ndim >= 1 and a.dtype.kind in "fiu":
+                desc = "decreasing" in pid
+                a = np.sort(a, axis=-1)
+                if rule == "strictly_increasing" or True:
+                    # break ties deterministically so that left/right conventions are exercised on distinct knots
+                    step = np.arange(a.shape[-1], dtype=np.float64)
+                    if a.dtype.kind == "f":
+                        a = (a.astype(np.float64) + step * 0.125).astype(a.dtype)
+                    elif rule == "strictly_increasing":
+                        a = (a.astype(np.int64) + step.astype(np.int64)).astype(a.dtype)
+                if desc:
+                    a = a[..., ::-1].copy()
+                arrays[idx] = a
+            elif rule == "case_index" and a.dtype.kind in "iu":
+                n = max(len(arrays) - 1, 1)
+                arrays[idx] = (np.abs(a.astype(np.int64)) % n).astype(a.dtype)
+    return arrays
+
+
 def gen_inputs(meta, model_inputs, binding, combo, tier) -> Optional[List[np.ndarray]]:
     """Arrays for the positional inputs, typed as the model declares them."""
     from mc import corpus, lattice
@@ -310,8 +352,19 @@ def _analyse(fn, tp, meta, binding, dbl: bool) -> Tuple[bool, bool]:
             jax.config.update("jax_enable_x64", prev)
 
 
+def _sort_rows(a: np.ndarray) -> np.ndarray:
+    a = np.asarray(a)
+    if np.iscomplexobj(a):
+        a = np.stack([a.real, a.imag], axis=-1)
+    if a.ndim == 1:
+        return np.sort(a)
+    if a.ndim == 2:
+        return a[np.lexsort(tuple(np.round(a[:, k], 4) for k in reversed(range(a.shape[1]))))]
+    return a
+
+
 _PROG_CACHE: Dict[str, Dict[str, Any]] = {}
-LOOP_LIMIT_S = 4.0
+LOOP_LIMIT_S = 2.0
 
 
 def _prepare(p: Dict[str, Any]) -> Dict[str, Any]:
@@ -385,6 +438,7 @@ def numeric_job(p: Dict[str, Any]) -> Dict[str, Any]:
         names = [n for n, _ in combo]
         try:
             arrays = gen_inputs(meta, pos_model_inputs, binding, combo, tier)
+            arrays = apply_domain_rules(p["pid"], arrays, tp)
         except Exception as e:  # noqa: BLE001
             out["skipped"] = f"input generation: {type(e).__name__}: {e}"[:200]
             break
@@ -431,9 +485,15 @@ def numeric_job(p: Dict[str, Any]) -> Dict[str, Any]:
             outs.append(o)
         # cheap strict pass first (no f64 reference): <= 8 ulp32 of JAX's own result
         r64 = None
+        if "/roots/" in p["pid"]:
+            # polynomial roots are an unordered set: compare in a canonical order
+            outs = [_sort_rows(o) for o in outs]
+            j32 = [_sort_rows(o) for o in j32]
         diff, worst = compare.compare_outputs(outs, j32, None, pointwise=pointwise, double=double_budget, k=2.0)
         if diff is not None and not double_budget:
             s64, r = ref(arrays, True)
+            if s64 == "ok" and "/roots/" in p["pid"]:
+                r = [_sort_rows(o) for o in r]
             if s64 == "ok" and len(r) == len(j32):
                 if not all(np.all(np.isfinite(o)) for o in r if o.dtype.kind in "fc"):
                     out["in_domain"] -= 1
